@@ -172,3 +172,11 @@ def run_inproc_many(jobs, workers=None, chunk=None, timeout=600):
     for r in results:
         r['report'] = reportmod.parse(r.get('stdout', ''))
     return results
+
+
+def compute_refs(worlds, workers=None):
+    """Stock-unittest reference events for every test of every world."""
+    jobs = [{'id': str(k), 'world': w, 'args': [], 'ref_only': True}
+            for k, w in enumerate(worlds)]
+    res = run_inproc_many(jobs, workers=workers)
+    return [r['ref'] for r in res]
